@@ -324,8 +324,17 @@ def r_pair(ctx):
     sites = send_sites(repo, root)
     from .state import tracked_lists
     tracked = tracked_lists(root)
-    lst_c = [t for t in tracked if "psd" not in t]
-    lst_p = [t for t in tracked if "psd" in t]
+    # which list follows which kind of send
+    kind_of = {}
+    for s0 in sites:
+        blk = flow.block_of(s0.stmt)[2]
+        for x in blk:
+            for c in ast.walk(x):
+                if isinstance(c, ast.Call) and call_name(c) == "append" and dotted(c.func.value) and dotted(c.func.value).startswith("self.") \
+                        and dotted(c.func.value).split(".", 1)[1] in tracked and s0.arg is not None and c.args and src(c.args[0]) == src(s0.arg):
+                    kind_of.setdefault(dotted(c.func.value).split(".", 1)[1], set()).add(s0.method)
+    lst_c = [t for t in tracked if kind_of.get(t) == {SEND_C}]
+    lst_p = [t for t in tracked if kind_of.get(t) == {SEND_P}]
     if len(lst_c) != 1 or len(lst_p) != 1:
         raise AnalysisError("tracking lists of the solve root not resolved: %s" % sorted(tracked))
     lst_c, lst_p = lst_c[0], lst_p[0]
